@@ -665,12 +665,73 @@ func vdRecordSubjects() []*vdSubject {
 			s.altLens = inner
 			out = append(out, s)
 		}
+		// Records.decode on a sub-decoder, as FetchResponseBlock.decode calls it: no "whole buffer consumed" check
+		// behind it, what Records.decode returns is what the consumer gets
+		for _, c := range vdCodecs {
+			c := c
+			if c == CompressionZSTD && mv == 0 {
+				continue
+			}
+			var valid []byte
+			var alt []int
+			if c == CompressionNone {
+				valid = vdMustEncode(vdTestMsgSet(mv, c))
+			} else {
+				ms, inner := vdTestMsgSetMulti(mv, c)
+				valid, alt = vdMustEncode(ms), inner
+			}
+			out = append(out, &vdSubject{
+				name: fmt.Sprintf("Records.legacy.v%d/%s", mv, c), ver: int16(mv), valid: valid, altLens: alt,
+				tape: func(b []byte, tp *vdTape) error { return (&Records{}).decode(vdNewTapeDec(b, tp)) },
+				run: func(b []byte) ([]string, error) {
+					r := &Records{}
+					if err := r.decode(&realDecoder{raw: b}); err != nil {
+						return nil, err
+					}
+					return vdRecordsDigests(r, []string{}), nil
+				},
+				hasRecs: true, comp: c != CompressionNone,
+			})
+		}
 		m := vdTestMsgSet(mv, CompressionNone).Messages[0].Msg
 		out = append(out, vdPlainDecodeSubject(fmt.Sprintf("Message.v%d", mv), int16(mv), vdMustEncode(m),
 			func() decoder { return &Message{} },
 			func(d decoder) []string {
 				return vdMsgSetDigests(&MessageSet{Messages: []*MessageBlock{{Msg: d.(*Message)}}}, []string{}, 0)
 			}))
+	}
+	// "decompression bombs by header": a few bytes whose compression header merely DECLARES a large decoded size
+	// (the statement exempts what decompressing legitimately yields - here nothing is yielded, the decode fails)
+	bombs := map[CompressionCodec][]byte{
+		// snappy block: uvarint decoded length 256 MiB, then one 4-byte literal
+		CompressionSnappy: append(vdUvar(256<<20), 0x0c, 0x41, 0x42, 0x43, 0x44),
+		// zstd frame: magic, descriptor (single segment, 4-byte content size) = 256 MiB, one raw last block of 1 byte
+		CompressionZSTD: {0x28, 0xb5, 0x2f, 0xfd, 0xa0, 0x00, 0x00, 0x00, 0x10, 0x09, 0x00, 0x00, 0x41},
+	}
+	for _, c := range []CompressionCodec{CompressionSnappy, CompressionZSTD} {
+		c := c
+		payload := bombs[c]
+		for _, s := range out {
+			if s.name != "RecordBatch/"+c.String() && s.name != "MessageSet.v1/"+c.String() {
+				continue
+			}
+			legacy := strings.HasPrefix(s.name, "MessageSet")
+			s.extra = func(tp *vdTape) []vdCase {
+				var b []byte
+				if legacy {
+					b = vdMustEncode(&MessageSet{Messages: []*MessageBlock{{Offset: 1, Msg: &Message{Version: 1, Value: payload,
+						Timestamp: time.Unix(1600000002, 0).UTC()}}}})
+					b[17] = byte(c)
+					binary.BigEndian.PutUint32(b[12:], crc32.ChecksumIEEE(b[16:]))
+				} else {
+					cb := vdTestBatch(c, false)
+					cb.Records = make([]*Record, 3)
+					cb.compressedRecords = payload
+					b = vdMustEncode(cb)
+				}
+				return []vdCase{{Kind: "bomb", Trig: "declared-size=256MiB", Prim: "-", Caller: "-", Fix: true, inner: b}}
+			}
+		}
 	}
 	return out
 }
